@@ -1,5 +1,95 @@
 import Driver.Util
+import KavaVerif.Model.Determinism
+/-!
+  C01 driver.
+
+  * `c01.maprange file fn n` / `c01.maprange-total total ranges` — the harness' type-checked listing of map
+    ranges in /repo; compared with the translator's table `KV.Gen.C01.mapRanges` (MISMATCH = the translator
+    missed or invented a site, so `C01_all_sites_discharged` would be about the wrong table).
+  * `c01.sum`, `c01.sortedkeys`, `c01.selections` — the real functions called repeatedly on one Go map
+    (different iteration orders): (1) the Lean transcription of the loop run on the entries must give the same
+    value (MISMATCH), (2) all repetitions must agree (PREDFAIL, the property predicate on the implementation).
+  * `c01.height`, `c01.tx` — per-height / per-tx observations of leader, fresh replicas and the restarted
+    replica: the predicate "all replicas agree" is evaluated here (PREDFAIL C01_replicas_agree <what>).
+-/
 namespace Drv.C01
+open KV.Det
+
+def allEq (l : List String) : Bool :=
+  match l with
+  | [] => true
+  | x :: xs => xs.all (· == x)
+
+def agree (what plan height : String) (col : String) : String :=
+  let xs := col.splitOn ","
+  if xs.length < 2 then badInput s!"no-replicas {what}"
+  else if allEq xs then "ok"
+  else predfail "C01_replicas_agree" s!"{what} plan={plan} height={height} values={col}"
+
+def handleHeight : Handler
+  | [plan, height, _n, app, txr, bb, eb] =>
+    allOk [agree "bbevents" plan height bb, agree "txresult" plan height txr,
+           agree "ebevents" plan height eb, agree "apphash" plan height app]
+  | _ => badInput "c01.height arity"
+
+def handleTx : Handler
+  | [plan, height, idx, kind, code, col, logs] =>
+    allOk [agree s!"tx-code-gas kind={kind} code={code} idx={idx}" plan height col,
+           agree s!"txlog kind={kind} code={code} idx={idx}" plan height logs]
+  | _ => badInput "c01.tx arity"
+
+def handleMapRange : Handler
+  | [file, fn, n] =>
+    match nat? n with
+    | some n => expectEq s!"translator-map-ranges {file} {fn}" (toString (sitesIn file fn)) (toString n)
+    | none => badInput "count"
+  | _ => badInput "c01.maprange arity"
+
+def handleMapRangeTotal : Handler
+  | [total, _ranges] => expectEq "translator-map-ranges-total" (toString KV.Gen.C01.mapRanges.length) total
+  | _ => badInput "c01.maprange-total arity"
+
+def handleTypedError : Handler
+  | _ => badInput "typed-listing-failed"
+
+def reps (s : String) : List String := s.splitOn ";"
+
+def handleSum : Handler
+  | [keys, vals, _, results] =>
+    match ints? vals with
+    | some vs =>
+      let ks := strs keys
+      if ks.length != vs.length then badInput "len" else
+      let rs := reps results
+      if !allEq rs then predfail "C01_site_valuation_sum_perm_invariant" s!"order-dependent results={results}"
+      else expectEq "ValuationMap.Sum" (toString (valuationSum (ks.zip vs))) (rs.headD "")
+    | none => badInput "vals"
+  | _ => badInput "c01.sum arity"
+
+def handleSortedKeys : Handler
+  | [keys, _, results] =>
+    let ks := strs keys
+    let rs := reps results
+    if !allEq rs then predfail "C01_site_sorted_keys_perm_invariant" s!"order-dependent results={results}"
+    else expectEq "GetSortedKeys" (",".intercalate (sortedKeys (ks.map (fun k => (k, ()))))) (rs.headD "")
+  | _ => badInput "c01.sortedkeys arity"
+
+def handleSelections : Handler
+  | [keys, vals, _, results] =>
+    let ks := strs keys
+    let vs := strs vals
+    if ks.length != vs.length then badInput "len" else
+    let rs := reps results
+    if !allEq rs then predfail "C01_site_selections_perm_invariant" s!"order-dependent results={results}"
+    else
+      let m := ",".intercalate ((selections (ks.zip vs)).map (fun p => p.1 ++ "=" ++ p.2))
+      expectEq "NewSelectionsFromMap" m (rs.headD "")
+  | _ => badInput "c01.selections arity"
+
 /-- handlers of property C01: (command name, handler) -/
-def handlers : List (String × Handler) := []
+def handlers : List (String × Handler) := [
+  ("c01.height", handleHeight), ("c01.tx", handleTx),
+  ("c01.maprange", handleMapRange), ("c01.maprange-total", handleMapRangeTotal), ("c01.typed-error", handleTypedError),
+  ("c01.sum", handleSum), ("c01.sortedkeys", handleSortedKeys), ("c01.selections", handleSelections)
+]
 end Drv.C01
